@@ -777,7 +777,7 @@ func (f *Frame) contractCall(c *ssa.CallCommon, ct *FuncContract, callee *ssa.Fu
 			ex.assume(implies(f.pc, "(forall ("+strings.Join(bs, " ")+") (! "+body+" :pattern "+pat+"))"))
 			continue
 		}
-		if len(e.Ghost) > 0 || mentions(e.Term, ghostNames) {
+		if len(e.Ghost) > 0 || mentions(e.Term, ghostNames) || e.Loop > 0 {
 			continue
 		}
 		if isSelfReturn(e.Term) {
